@@ -5,6 +5,7 @@ import CdnsVerif.Driver.Ts
 import CdnsVerif.Driver.Dec
 import CdnsVerif.Driver.Cdns
 import CdnsVerif.Driver.Exm
+import CdnsVerif.Driver.Tbl
 open CdnsVerif.Driver
 
 def dispatch (line : String) : String :=
@@ -16,6 +17,7 @@ def dispatch (line : String) : String :=
   | "dec" :: rest => Dec.handle rest
   | "cdns" :: rest => CdnsD.handle rest
   | "exm" :: rest => Exm.handle rest
+  | "tbl" :: rest => Tbl.handle rest
   | _ => "bad-request"
 
 partial def loop (h : IO.FS.Stream) (out : IO.FS.Stream) : IO Unit := do
